@@ -322,6 +322,43 @@ class ApiSession:
             ths = [api.spawn(f"U{i + 1}", worker, i) for i in range(len(spec["texts"]))]
             for t in ths:
                 t.join()
+        elif kind == "set_race":
+            # descriptors and converters are class-level objects shared by every instance of a subunit class (and, through base classes and
+            # shared mix-ins, by several classes): what an assignment transmits must depend on the assigned value only — not on what another
+            # thread assigns at the same time, on what was assigned before, or on what the receiver reported in between
+            from .realobj import make
+            from .props.c11 import pyval_token
+            from ynca.connection import YncaProtocolStatus as _St
+            objs = [make(c) for c in spec["classes"]]
+
+            def worker(i):
+                obj, conn = objs[i]
+                for op in spec["ops"][i]:
+                    if op[0] == "report":
+                        try:
+                            conn.deliver(_St.OK, str(obj.id.value if hasattr(obj.id, "value") else obj.id), op[1], op[2])
+                        except sched.Hang:
+                            raise
+                        except BaseException as e:  # noqa: BLE001
+                            api.emit("setr", i=i, cls=spec["classes"][i], fn=op[1], tok="report", rep=op[2], res="R " + type(e).__name__)
+                        continue
+                    attr, fname, v = op[1], op[2], op[3]
+                    n0 = len(conn.sent)
+                    try:
+                        setattr(obj, attr, v)
+                        sent = conn.sent[n0:]
+                        if len(sent) == 1 and sent[0][0] == "put" and sent[0][2] == fname and isinstance(sent[0][3], str):
+                            r = "S " + sent[0][3]
+                        else:
+                            r = "X " + repr(sent)[:120]
+                    except sched.Hang:
+                        raise
+                    except BaseException as e:  # noqa: BLE001
+                        r = "R " + type(e).__name__
+                    api.emit("setr", i=i, cls=spec["classes"][i], fn=fname, tok=pyval_token(v), rep=repr(v), res=r)
+            ths = [api.spawn(f"U{i + 1}", worker, i) for i in range(len(objs))]
+            for t in ths:
+                t.join()
         elif kind == "subunit_wire":
             # end to end: typed reads / assignments / action methods on a real subunit object on a real connection; the device reports values
             import ynca.connection as YC
